@@ -1006,9 +1006,23 @@ class World:
                 fw.run_step(j, sj)
         return fw
 
+    def log_force(self, o):
+        """forced extrapolation of the Empirical1D under object o reaches every object whose compound model contains
+        that instance: record, for each of them, which of its model instances was switched"""
+        from synphot.models import Empirical1D
+        m = self.objs[o]._model
+        if not isinstance(m, Empirical1D):
+            return
+        for j in range(len(self.objs)):
+            if j in self.dead or self.pristine[j] is None:
+                continue
+            for idx, l in enumerate(model_leaves(self.objs[j]._model)):
+                if l is m:
+                    self.mutlog[j].append(('force', idx))
+
     def log_mutation(self, conc, info, out):
-        """record the documented mutator a step applied to an object (its own assignments, and the forced
-        extrapolation of normalize / Observation(force='extrap') on their source operand)"""
+        """record the documented mutator a step applied (its own assignments, and the forced extrapolation of
+        force_extrapolation / normalize / Observation(force='extrap') on the table under their operand)"""
         d = conc['do']
         if 'err' in out and d in ('set_z', 'set_ztype'):
             return
@@ -1017,16 +1031,16 @@ class World:
         elif d == 'set_ztype':
             self.mutlog[info['o']].append(('z_type', conc['t']))
         elif d == 'force_extrap':
-            self.mutlog[info['o']].append(('force',))
+            self.log_force(info['o'])
         elif d == 'normalize' and info['stat'].startswith('partial') and not (info['stat'] == 'partial_notmost' and not conc['force']):
-            self.mutlog[info['o']].append(('force',))
+            self.log_force(info['o'])
         elif d == 'observation' and info['stat'].startswith('partial') and str(conc['force']).lower().startswith('extrap') \
                 and self.kinds[info['src']] == 'source':
-            self.mutlog[info['src']].append(('force',))
+            self.log_force(info['src'])
 
     def twin(self, o):
         """a fresh object structurally identical to #o and carrying the same final attribute values: a copy of the
-        copy taken at construction, with the documented mutators #o has received replayed on it; never queried"""
+        copy taken at construction, with the documented mutators that have reached #o replayed on it; never queried"""
         if self.pristine[o] is None:
             return None
         t = copy.deepcopy(self.pristine[o])
@@ -1036,7 +1050,7 @@ class World:
             elif m[0] == 'z_type':
                 t.z_type = m[1]
             else:
-                t.force_extrapolation()
+                model_leaves(t._model)[m[1]].fill_value = np.nan
         return t
 
     def check_assigned(self, k, conc, info):
@@ -1542,8 +1556,8 @@ def follow_ups(rng, st):
 def gen_case(rng, K, maxlen):
     arrays, dicts = gen_pool(rng)
     # re-sampling every live object after every call makes a history's cost quadratic in its length:
-    # 40 % of the histories use the full length range, the rest the lower third
-    n = rng.randint(3, maxlen) if rng.random() < 0.4 else rng.randint(3, max(4, maxlen // 3))
+    # 30 % of the histories use the full length range, the rest the lower third
+    n = rng.randint(3, maxlen) if rng.random() < 0.3 else rng.randint(3, max(4, maxlen // 3))
     steps = []
     nbb = 0
     while len(steps) < n:
